@@ -150,3 +150,44 @@ Proof.
   - constructor; [| now apply IH]. intros E. apply H2. eapply select_from_incl; eauto.
   - now apply IH.
 Qed.
+
+(* positions in a dict without duplicate keys *)
+Lemma nth_in_keys : forall (d : dict) j k o, nth_error d j = Some (k, o) -> In k (dkeys d).
+Proof.
+  induction d as [| [k' v'] r IH]; intros j k o H; destruct j; simpl in *; try discriminate.
+  - injection H as <- <-. now left.
+  - right. eapply IH; eauto.
+Qed.
+Lemma nth_dget : forall (d : dict) j k o, NoDup (dkeys d) -> nth_error d j = Some (k, o) -> dget d k = Some o.
+Proof.
+  induction d as [| [k' v'] r IH]; intros j k o Hn H; destruct j; simpl in *; try discriminate.
+  - injection H as <- <-. now rewrite Z.eqb_refl.
+  - inversion Hn; subst. destruct (Z.eqb_spec k' k).
+    + subst. exfalso. apply H2. eapply nth_in_keys; eauto.
+    + eapply IH; eauto.
+Qed.
+Lemma dget_nth : forall (d : dict) k o, dget d k = Some o -> exists j, j < length d /\ nth_error d j = Some (k, o).
+Proof.
+  induction d as [| [k' v'] r IH]; intros k o H; simpl in *; [discriminate |].
+  destruct (Z.eqb_spec k' k).
+  - injection H as <-. subst. exists 0. split; [lia | reflexivity].
+  - destruct (IH k o H) as (j & Hj & Hn). exists (S j). split; [lia | exact Hn].
+Qed.
+Lemma nth_key_inj : forall (d : dict) j j' k o o', NoDup (dkeys d) ->
+  nth_error d j = Some (k, o) -> nth_error d j' = Some (k, o') -> j = j'.
+Proof.
+  induction d as [| [k' v'] r IH]; intros j j' k o o' Hn A B; destruct j, j'; simpl in *; try discriminate.
+  - reflexivity.
+  - injection A as <- <-. inversion Hn; subst. exfalso. apply H1. eapply nth_in_keys; eauto.
+  - injection B as <- <-. inversion Hn; subst. exfalso. apply H1. eapply nth_in_keys; eauto.
+  - inversion Hn; subst. f_equal. eapply IH; eauto.
+Qed.
+Lemma in_dvals : forall (d : dict) o, In o (dvals d) -> exists j k, nth_error d j = Some (k, o).
+Proof.
+  induction d as [| [k' v'] r IH]; intros o H; simpl in *; [contradiction |].
+  destruct H as [<- | H].
+  - exists 0, k'. reflexivity.
+  - destruct (IH o H) as (j & k & Hn). exists (S j), k. exact Hn.
+Qed.
+Lemma nth_error_lt_some : forall (A : Type) (l : list A) j, j < length l -> nth_error l j <> None.
+Proof. intros A l j H. now apply nth_error_Some. Qed.
